@@ -76,7 +76,8 @@ pub fn c09_label_name_regex_3chars() {
 }
 
 /// `Desc::new` applies the checks: symbolic 2-char metric name and variable label, help empty or not.
-#[cfg_attr(kani, kani::proof, kani::unwind(8))]
+#[cfg_attr(kani, kani::proof, kani::unwind(8),
+    kani::stub(std::fmt::format, fmt_stub))]
 pub fn c09_desc_new_checks_names() {
     let name = SymStr::<2>::new();
     let label = SymStr::<2>::new();
